@@ -101,6 +101,35 @@ func vrTagList() string {
 			}
 		}
 	}
+	// exact listing (the statement): the tags strictly above `last`, in order, cut to n when n is a non-negative number -
+	// for cursors that are tags and cursors that are not (a tag deleted between two pages, an arbitrary value)
+	for _, last := range []string{"", "A", "Beta", "Betb", "a", "alpha", "alphb", "b", "c", "rc-1", "rc-2", "v", "v1", "v1x", "v2", "v3", "zz"} {
+		for _, n := range []int{-1, 0, 1, 2, 3, 6, 7} {
+			var exp []string
+			for _, t := range want {
+				if t > last {
+					exp = append(exp, t)
+				}
+			}
+			q := "?last=" + last
+			if last == "" {
+				q = "?x=1"
+			}
+			if n >= 0 {
+				q += fmt.Sprintf("&n=%d", n)
+				if len(exp) > n {
+					exp = exp[:n]
+				}
+			}
+			r, tags := vrTags(s, "repo", q)
+			if r.panicked != nil || r.code != 200 {
+				return fmt.Sprintf("GET /v2/repo/tags/list%s fails (%d, %v)", q, r.code, r.panicked)
+			}
+			if strings.Join(tags, ",") != strings.Join(exp, ",") {
+				return fmt.Sprintf("GET /v2/repo/tags/list%s lists %v, the tags above %q (cut to n) are %v", q, tags, last, exp)
+			}
+		}
+	}
 	for n := 1; n <= len(want)+1; n++ {
 		var seen []string
 		q := fmt.Sprintf("?n=%d", n)
@@ -325,6 +354,116 @@ func vrReferrersFilterAnnounced() string {
 	return ""
 }
 
+
+// manifestGet / blobGet (C02): what HEAD says about a stored object is what GET delivers - status, digest, type and length
+// - also when an index that lists the object says something else about it
+func vrHeadMatchesGet() string {
+	tr := true
+	for _, delta := range []int64{7, -1000, 0} {
+		s := New(config.Config{Storage: config.ConfigStorage{StoreType: config.StoreMem}, API: config.ConfigAPI{DeleteEnabled: &tr, PushEnabled: &tr}})
+		defer s.Close()
+		d, raw := vrPushImage(s, "repo", "", "h")
+		listedSize := int64(len(raw)) + delta
+		if listedSize < 0 {
+			listedSize = 1
+		}
+		idx := types.Index{SchemaVersion: 2, MediaType: types.MediaTypeOCI1ManifestList, Manifests: []types.Descriptor{{MediaType: types.MediaTypeOCI1Manifest, Digest: d, Size: listedSize}}}
+		iraw, _ := json.Marshal(idx)
+		if r := vrDo(s, "PUT", "/v2/repo/manifests/idx", map[string]string{"Content-Type": types.MediaTypeOCI1ManifestList}, iraw); r.code != 201 {
+			return ""
+		}
+		for _, target := range []string{"/v2/repo/manifests/" + d.String(), "/v2/repo/blobs/" + d.String(), "/v2/repo/manifests/idx"} {
+			acc := map[string]string{"Accept": types.MediaTypeOCI1Manifest + ", " + types.MediaTypeOCI1ManifestList}
+			g := vrDo(s, "GET", target, acc, nil)
+			h := vrDo(s, "HEAD", target, acc, nil)
+			if g.panicked != nil || h.panicked != nil {
+				return fmt.Sprintf("GET/HEAD %s panics (%v, %v)", target, g.panicked, h.panicked)
+			}
+			if g.code != h.code {
+				return fmt.Sprintf("HEAD %s answers %d, GET answers %d (index lists the image with size %d)", target, h.code, g.code, listedSize)
+			}
+			if g.code == 200 {
+				if cl := h.hdr.Get("Content-Length"); cl != fmt.Sprint(len(g.body)) {
+					return fmt.Sprintf("HEAD %s reports Content-Length %s, GET delivers %d bytes (an index lists the image with size %d)", target, cl, len(g.body), listedSize)
+				}
+				if h.hdr.Get("Docker-Content-Digest") != g.hdr.Get("Docker-Content-Digest") || h.hdr.Get("Content-Type") != g.hdr.Get("Content-Type") {
+					return fmt.Sprintf("HEAD and GET of %s disagree on digest or content type", target)
+				}
+			}
+		}
+	}
+	return ""
+}
+
+// rate limit (C19): clients are told apart by their address, whatever its family; one client using up its allowance
+// leaves every other client alone
+func vrRateLimitPerAddress() string {
+	tr := true
+	for _, pair := range [][2]string{{"192.0.2.1:4000", "192.0.2.2:4000"}, {"[2001:db8::a]:40001", "[2001:db8::b]:40001"}, {"[2001:db8::a]:40001", "[2001:db9::a]:40001"}} {
+		for attempt := 0; attempt < 3; attempt++ {
+			s := New(config.Config{Storage: config.ConfigStorage{StoreType: config.StoreMem}, API: config.ConfigAPI{PushEnabled: &tr, RateLimit: 2}})
+			do := func(addr string) int {
+				req := httptest.NewRequest("GET", "/v2/", nil)
+				req.RemoteAddr = addr
+				rec := httptest.NewRecorder()
+				s.ServeHTTP(rec, req)
+				return rec.Result().StatusCode
+			}
+			limited := false
+			for i := 0; i < 4; i++ {
+				if do(pair[0]) == 429 {
+					limited = true
+				}
+			}
+			codeB := do(pair[1])
+			_ = s.Close()
+			if limited && codeB == 429 {
+				return fmt.Sprintf("rate limit 2/s: after client %s used up its allowance the first request of client %s is answered 429", pair[0], pair[1])
+			}
+			if limited {
+				break
+			}
+		}
+	}
+	return ""
+}
+
+// manifestPut (C15, C19): a subject field is client data - whatever it holds there is an answer, never a panic or a 5xx; and
+// with the referrers API switched off a subject has no effect
+func vrManifestPutSubjects() string {
+	tr, fa := true, false
+	for _, enabled := range []*bool{&tr, &fa} {
+		s := New(config.Config{Storage: config.ConfigStorage{StoreType: config.StoreMem}, API: config.ConfigAPI{DeleteEnabled: &tr, PushEnabled: &tr, Referrer: config.ConfigAPIReferrer{Enabled: enabled}}})
+		conf := []byte(`{}`)
+		cd := vrPushBlob(s, "repo", conf)
+		sd, sraw := vrPushImage(s, "repo", "subject", "s")
+		for _, subj := range []string{sd.String(), "latest", strings.Repeat("a", 64), "sha256:" + strings.Repeat("0", 64), "md5:abc", "sha256:xyz", ""} {
+			for _, kind := range []string{"image", "index"} {
+				sub := &types.Descriptor{MediaType: types.MediaTypeOCI1Manifest, Digest: digest.Digest(subj), Size: int64(len(sraw))}
+				var raw []byte
+				mt := types.MediaTypeOCI1Manifest
+				if kind == "image" {
+					raw, _ = json.Marshal(types.Manifest{SchemaVersion: 2, MediaType: mt, ArtifactType: "application/vnd.example.x",
+						Config: types.Descriptor{MediaType: types.MediaTypeOCI1Empty, Digest: cd, Size: int64(len(conf))}, Layers: []types.Descriptor{}, Subject: sub})
+				} else {
+					mt = types.MediaTypeOCI1ManifestList
+					raw, _ = json.Marshal(types.Index{SchemaVersion: 2, MediaType: mt, ArtifactType: "application/vnd.example.x", Manifests: []types.Descriptor{}, Subject: sub})
+				}
+				d := digest.Canonical.FromBytes(raw)
+				r := vrDo(s, "PUT", "/v2/repo/manifests/"+d.String(), map[string]string{"Content-Type": mt}, raw)
+				if r.panicked != nil || r.code >= 500 {
+					return fmt.Sprintf("PUT of an %s manifest whose subject digest is %q (referrers enabled: %v) answers %d, panic: %v", kind, subj, *enabled, r.code, r.panicked)
+				}
+				if !*enabled && r.code == 201 && r.hdr.Get("OCI-Subject") != "" {
+					return fmt.Sprintf("referrers API switched off: PUT of an %s manifest with subject %q is answered with OCI-Subject: %s (a referrers response was built)", kind, subj, r.hdr.Get("OCI-Subject"))
+				}
+			}
+		}
+		_ = s.Close()
+	}
+	return ""
+}
+
 func TestVerifReplay(t *testing.T) {
 	ob := os.Getenv("VERIF_OBLIGATION")
 	type probe struct {
@@ -339,6 +478,10 @@ func TestVerifReplay(t *testing.T) {
 		{"blobUploadMount", vrMountOutside},
 		{"manifestPut", vrManifestPutLimits},
 		{"manifestDelete", vrTagDeleteKeepsReferrer},
+		{"manifestGet", vrHeadMatchesGet},
+		{"blobGet", vrHeadMatchesGet},
+		{"ServeHTTP", vrRateLimitPerAddress},
+		{"manifestPut", vrManifestPutSubjects},
 	}
 	ran := 0
 	for _, p := range probes {
